@@ -39,3 +39,296 @@ PROPS["C18"] = dict(
 K("c18_min_status", "C18", "query_state", "query::state", ["query::state::min_status"], "complete",
   "min_status(a,b) is the least advanced of a,b in Preparing<AwaitingInputs<Running<AwaitingCompletion<Completed; commutative; idempotent",
   min_covers=2)
+
+# ============================================================================ C08
+PROPS["C08"] = dict(
+    level="proof",
+    decided=["Fp31, Fp32BitPrime, Fp61BitPrime: + - * neg and every reduction return the canonical representative of the "
+             "mathematical result in Z/pZ for all canonical operands / all integer inputs (so -0 = 0, a + (-a) = 0, results compare "
+             "equal iff equal); multiplicative inverses exist for every non-zero element (Verus, unbounded Euclid loop)",
+             "deferred-reduction accumulator (Fp61, 64 products) and its array form: no u128 overflow, value' = value + a*b or its reduction",
+             "generic accumulator (Fp32), replicated-share + - neg scalar-mul act componentwise (Fp32, Fp61)",
+             "Boolean (GF(2)) exhaustively; DZKP constants 1/2, -1/2, -2; moduli of the seven binary fields are the documented irreducible polynomials"],
+    undecided=["binary-field (Gf2..Gf40Bit, BA*) multiplication algorithm (bitvec folds: CBMC does not finish; Verus cannot import bitvec)",
+               "Fp25519 / curve points (external curve25519-dalek)", "batch_invert and Lagrange tables beyond the stated instances",
+               "serialisation identity of equal values (GenericArray plumbing aborts CBMC)"],
+    trusted_base=["primality of 31, 2^32-5, 2^61-1 and irreducibility of the seven GF(2) moduli (cross-checked each run with sympy, not proved)",
+                  "field laws (associativity, distributivity, no zero divisors) are theorems of Z/pZ and transfer through "
+                  "'op computes the spec function on canonical representatives' -- not re-proved on the code"],
+    assumptions=[],
+    explanation="function contracts on the real field operations discharged for all inputs; see units",
+)
+_FIELDS = [("fp31", "Fp31", "ff::prime_field::fp31"), ("fp32", "Fp32BitPrime", "ff::prime_field::fp32bit"),
+           ("fp61", "Fp61BitPrime", "ff::prime_field::fp61bit")]
+for f, T, m in _FIELDS:
+    def k(h, fns, clause, **kw):
+        K("c08_%s_%s" % (f, h), "C08", f, m, fns, "complete", clause, harness=h, **kw)
+    k("constants", ["%s::PRIME" % T, "%s::ZERO" % T, "%s::ONE" % T, "%s::BITS" % T], "PRIME/ZERO/ONE/BITS are the documented constants")
+    k("add_contract", ["<%s as Add>::add" % T], "canon(r) and val(r) = val(a)+val(b) reduced once, for all canonical a,b", min_covers=2)
+    k("sub_contract", ["<%s as Sub>::sub" % T], "canon(r) and val(r) = val(a)-val(b) (+P if negative)", min_covers=2)
+    k("mul_contract", ["<%s as Mul>::mul" % T], "canon(r) and val(r) = (val(a)*val(b)) mod P", timeout=900,
+      assumes=["stub_verified(modulo_prime_base): callee replaced by its contract, proved by unit reduce_base_contract"])
+    k("neg_contract", ["<%s as Neg>::neg" % T], "canon(r) and val(r) = P - val(a), 0 for a = 0 (so -0 = 0)", min_covers=2)
+    k("reduce_base_contract", ["%s::modulo_prime_base" % T], "canonical representative of input mod P for every value of the operation store type",
+      min_covers=2, timeout=900, assumes=(["stub_verified(modulo_prime_u128), proved by unit reduce_u128_contract"] if f == "fp61" else []))
+    k("reduce_u128_contract", ["%s::modulo_prime_u128" % T], "canonical representative of input mod P for every u128", min_covers=2, timeout=1500)
+    k("truncate_from_any", ["<%s as U128Conversions>::truncate_from" % T, "<%s as FromRandomU128>::from_random_u128" % T, "<%s as U128Conversions>::as_u128" % T],
+      "truncate_from / from_random_u128 are modulo_prime_u128 of the widened argument")
+    k("try_from_ok_side", ["<%s as TryFrom<u128>>::try_from" % T], "values that fit in BITS bits are accepted and reduced",
+      assumes=["the Err arm (format!) is not executed; its guard is the negation of the assumed condition"])
+    k("assign_ops", ["<%s as AddAssign>::add_assign" % T, "<%s as SubAssign>::sub_assign" % T, "<%s as MulAssign>::mul_assign" % T],
+      "compound assignment = binary operator")
+    k("eq_and_store", ["<%s as PartialEq>::eq" % T, "<%s as ConstantTimeEq>::ct_eq" % T, "From<%s> for storage" % T], "equal values compare equal and convert to the same integer")
+K("c08_fp61_const_truncate_contract", "C08", "fp61", "ff::prime_field::fp61bit", ["Fp61BitPrime::const_truncate"], "complete",
+  "canonical reduction of every u64", harness="const_truncate_contract")
+K("c08_fp61_from_bit_total", "C08", "fp61", "ff::prime_field::fp61bit", ["Fp61BitPrime::from_bit"], "complete",
+  "from_bit(b) is canonical and equals b", harness="from_bit_total")
+for f, T, m in _FIELDS:
+    V("c08_invert_%s" % f, "C08", "invert", ["<%s as PrimeField>::invert" % T], "complete",
+      "for all 0 < a < P: canon(r) and a*r = 1 (mod P); no u128 overflow; termination", instance=T,
+      assumes=["prime(P) (mathematical fact, cross-checked by sympy)",
+               "external_body verif_try_from_unwrap: try_from(x).unwrap() = x for x < P (engine K units try_from_ok_side + reduce_u128_contract)",
+               "the element's canonical value is passed as integer parameter (canon(self), engine K invariant)"])
+_A = "ff::accumulator"
+K("c08_acc_constants", "C08", "accumulator", _A, ["Accumulator::new", "Accumulator::from"], "complete",
+  "REDUCE_INTERVAL = 64 with a u128 accumulator cannot overflow: 64*(P-1)^2 + (P-1) < 2^128; new/from establish the invariant")
+K("c08_acc_step_bound", "C08", "accumulator", _A, ["Accumulator<Fp61BitPrime,u128,64>::multiply_accumulate"], "complete",
+  "invariant count < 64 and value <= (P-1) + count*(P-1)^2 is preserved; += and * cannot overflow", min_covers=2,
+  assumes=["stub_verified(modulo_prime_u128)"])
+K("c08_acc_step_value", "C08", "accumulator", _A, ["Accumulator<Fp61BitPrime,u128,64>::multiply_accumulate"], "complete",
+  "value' = value + a*b, or truncate_from(value + a*b) with count' = 0 when the interval is reached", min_covers=2)
+K("c08_acc_take", "C08", "accumulator", _A, ["Accumulator<Fp61BitPrime,u128,64>::take"], "complete", "take() = truncate_from(value)")
+K("c08_acc_array2_step", "C08", "accumulator", _A, ["Accumulator<Fp61BitPrime,[u128;2],64>::multiply_accumulate"], "complete-for-instance",
+  "each lane behaves as the scalar accumulator (N = 2)", min_covers=2)
+K("c08_acc_array2_take", "C08", "accumulator", _A, ["Accumulator<Fp61BitPrime,[u128;2],64>::take"], "complete-for-instance", "lane i = truncate_from(value[i])")
+K("c08_acc_generic_fp32", "C08", "accumulator", _A, ["<Fp32BitPrime as MultiplyAccumulator>::multiply_accumulate"], "complete-for-instance",
+  "acc' = acc + a*b with the field operators")
+_S = "secret_sharing::replicated::semi_honest::additive_share"
+for f in ("fp32", "fp61"):
+    K("c08_share_linear_%s" % f, "C08", "additive_share", _S, ["AdditiveShare: Add, Sub, Neg, AddAssign, SubAssign (all reference forms)"], "complete-for-instance",
+      "componentwise with the field operation => reconstruction is a homomorphism", assumes=["stub_verified(add, sub, neg) of the field"])
+    K("c08_share_scale_%s" % f, "C08", "additive_share", _S, ["AdditiveShare: Mul<F> (all reference forms)"], "complete-for-instance",
+      "scalar multiplication componentwise", assumes=["stub_verified(mul) of the field"])
+K("c08_boolean_field", "C08", "boolean", "ff::boolean", ["Boolean: Add Sub Mul Neg Not *Assign"], "complete", "GF(2) tables and axioms, exhaustive", min_covers=2)
+K("c08_boolean_conversions", "C08", "boolean", "ff::boolean", ["Boolean::truncate_from", "Boolean::try_from", "Boolean::from_random_u128"], "complete",
+  "low bit / exactly 0 and 1", min_covers=2)
+K("c08_dzkp_constants", "C08", "dzkp_field", "protocol::context::dzkp_field", ["<Fp61BitPrime as DZKPBaseField>::{INVERSE_OF_TWO,MINUS_ONE_HALF,MINUS_TWO}"], "complete",
+  "2*INVERSE_OF_TWO = 1, MINUS_ONE_HALF + INVERSE_OF_TWO = 0, MINUS_TWO + 2 = 0 (mod P), all canonical")
+PY("c08_math_facts", "C08", "c08_math_facts", ["field_impl! PRIME literals", "galois_field POLYNOMIAL literals"],
+   "primality of the three PRIME literals read from the source; irreducibility over GF(2) of the seven POLYNOMIAL literals read from the source",
+   where="ipa-core/src/ff/prime_field.rs, ipa-core/src/ff/galois_field.rs")
+
+# ============================================================================ C09
+PROPS["C09"] = dict(
+    level="proof",
+    decided=["bit-matrix transposes 8x8 and 16x16 are exact transposes (out[j].bit(i) = in[i].bit(j)) and involutions; blocked transpose visits every block once",
+             "table-index packing bits_to_table_indices", "PrssIndex128 <-> u128/u64 round trip and rejection of out-of-range values",
+             "prime-field deserialize accepts exactly integers < PRIME (canonical encodings)", "Boolean::deserialize accepts exactly 0/1; event type byte accepts exactly 0/1"],
+    undecided=["every Serializable impl as such (field elements, bit arrays and padding-bit rejection, shares, reports, proof/hash arrays, seeds): "
+               "GenericArray construction/conversion aborts CBMC and is outside Verus' subset",
+               "QueryConfig serde / URL encoding", "executor::Result for Vec<T>", "curve points", "BooleanArrayWriter/Reader field packing"],
+    trusted_base=["<backend_store>::from_le_bytes((*buf).into()) yields the little-endian integer of the buffer (std + generic-array; dropped by the weave)"],
+    assumptions=[],
+    explanation="scoped to layout changes and the canonical-range decision",
+)
+_T = "secret_sharing::vector::transpose"
+K("c09_transpose_8x8", "C09", "transpose", _T, ["transpose_8x8"], "complete", "out[j].bit(i) = in[i].bit(j)", min_covers=2)
+K("c09_transpose_8x8_involution", "C09", "transpose", _T, ["transpose_8x8"], "complete", "transpose(transpose(x)) = x")
+K("c09_transpose_16x16", "C09", "transpose", _T, ["transpose_16x16"], "complete", "out[j].bit(i) = in[i].bit(j), 16x16", min_covers=2)
+K("c09_transpose_16x16_involution", "C09", "transpose", _T, ["transpose_16x16"], "complete", "transpose(transpose(x)) = x")
+K("c09_do_transpose_16_blocks", "C09", "transpose", _T, ["do_transpose_16"], "bounded", "block (i,j) -> transposed block (j,i), each once", bound="2x3 blocks")
+K("c09_bits_to_table_indices", "C09", "dzkp_field", "protocol::context::dzkp_field", ["bits_to_table_indices"], "complete",
+  "nibble i/4 of word i%4 = b0[i] | b1[i]<<1 | b2[i]<<2", harness="c03_bits_to_table_indices", min_covers=2)
+K("c09_prss_index128_roundtrip", "C09", "prss", "protocol::prss", ["PrssIndex128::new", "From<PrssIndex128> for u128", "TryFrom<u128> for PrssIndex128"], "complete",
+  "injective, inverse, Err iff offset > 2^11", harness="c06_prss_index128_injective", min_covers=3)
+K("c09_prss_index128_try_from", "C09", "prss", "protocol::prss", ["TryFrom<u128> for PrssIndex128"], "complete",
+  "Ok iff < 2^64 and offset <= 2^11; decode(encode) identity", harness="c06_prss_index128_try_from", min_covers=2)
+K("c09_boolean_deserialize", "C09", "boolean", "ff::boolean", ["<Boolean as Serializable>::deserialize"], "complete", "Ok iff byte <= 1, all 256 bytes", min_covers=2)
+K("c09_event_type", "C09", "report_hybrid", "report::hybrid", ["HybridEventType::try_from"], "complete", "Ok iff byte in {0,1}", harness="c10_event_type_try_from", min_covers=2)
+for f, T, m in _FIELDS:
+    V("c09_field_decode_%s" % f, "C09", "field_decode", ["<%s as Serializable>::deserialize (decision)" % T], "complete",
+      "Ok(x) <=> v < PRIME and val(x) = v", instance=T, assumes=["byte-to-integer conversion dropped and trusted"])
+
+# ============================================================================ C03
+PROPS["C03"] = dict(
+    level="proof",
+    decided=["u/v lookup tables: for all 64 gate assignments sum_k U[..][k]*V[..][k] = -1/2 <=> e = ab^cd^f on the real TABLE_U/TABLE_V with real field arithmetic (zero padding row included)",
+             "the index fed to the tables is the triple of bits at the same position (bits_to_table_indices)",
+             "recursion constants: depth suffices for the largest batch"],
+    undecided=["ProofBatch::generate, BatchToVerify::verify, Fiat-Shamir hashing, Batch::validate (async, PRSS, channels)",
+               "segment packing insert_segment_small/large and table_indices_* on Array256Bit (bitvec sub-slice loads)",
+               "end-to-end 'flip any bit => some helper rejects'"],
+    trusted_base=[], assumptions=[],
+    explanation="scoped to mechanism 1 (the algebraic identity the whole check rests on)",
+)
+_D = "protocol::context::dzkp_field"
+K("c03_bits_to_table_indices", "C03", "dzkp_field", _D, ["bits_to_table_indices"], "complete", "index layout", min_covers=2)
+K("c03_uv_table_identity_sym", "C03", "dzkp_field", _D, ["TABLE_U", "TABLE_V", "Fp61BitPrime mul/add"], "complete",
+  "consistency <=> -1/2 contribution, symbolic gate assignment (all 64)", min_covers=3, timeout=900)
+K("c03_uv_table_identity", "C03", "dzkp_field", _D, ["TABLE_U", "TABLE_V"], "complete", "same, unrolled enumeration; exactly 32 consistent assignments",
+  tier="thorough", timeout=1800)
+K("c03_recursion_constants", "C03", "proof_generation", "protocol::ipa_prf::validation_protocol::proof_generation",
+  ["FirstProofGenerator/CompressedProofGenerator recursion factors", "MAX_PROOF_RECURSION", "MIN_PROOF_RECURSION", "TARGET_PROOF_SIZE"], "complete",
+  "L*(S-1)*S^(d-2) >= 4*TARGET_PROOF_SIZE and MIN_PROOF_RECURSION >= 2")
+
+# ============================================================================ C14
+PROPS["C14"] = dict(
+    level="proof",
+    decided=["CircularBuf cursor functions len/can_read/can_write/is_empty/remaining/mask/wrap/inc/capacity/close against the abstract queue length, every capacity (Verus)",
+             "cursor updates of write/take preserve the invariant and change the length by exactly delta (Verus lemma fns through the real inc)",
+             "BOUNDED (cap <= 8): take/write contents, frame, FIFO order against a reference queue"],
+    undecided=["OrderingSender (next_op, WaitingShard, woken_at), UnorderedReceiver (Spare, OperatingState wakers): interleavings over atomics and wakers; "
+               "Kani has no threads, Verus would need permission-typed re-implementations (= a model)", "blocking / wake-ups / lost wake-ups"],
+    trusted_base=[], assumptions=[],
+    explanation="proof for the cursor algebra of the ring buffer; contents bounded; interleavings undecided",
+)
+V("c14_circular_cursors", "C14", "circular_cursors", ["CircularBuf::{len,can_read,can_write,is_closed,capacity,is_empty,remaining,mask,wrap,inc,close}"], "complete",
+  "post-conditions in terms of abs_len; wf needs 3*cap <= usize::MAX", witness_unit="c14_cursor_contracts_k")
+_C = "helpers::buffers::circular"
+K("c14_cursor_contracts_k", "C14", "circular", _C, ["CircularBuf cursor fns (unsubstituted)"], "bounded", "same contracts on the unsubstituted code", bound="cap <= 64", min_covers=3)
+K("c14_new_contract", "C14", "circular", _C, ["CircularBuf::new"], "bounded", "establishes wf with empty queue", bound="cap <= 8")
+K("c14_write_contract", "C14", "circular", _C, ["CircularBuf::next", "Next::write"], "bounded", "ws bytes at mask(write) = message, frame, len + ws, wf", bound="cap <= 8, ws <= 2", min_covers=2)
+K("c14_take_contract", "C14", "circular", _C, ["CircularBuf::take"], "bounded", "min(rs, len) bytes in queue order (all when closed), read advanced, data unchanged, wf", bound="cap <= 8", min_covers=3)
+K("c14_close_contract", "C14", "circular", _C, ["CircularBuf::close"], "bounded", "only sets the flag", bound="cap <= 8")
+K("c14_fifo_against_reference", "C14", "circular", _C, ["CircularBuf::{new,next,take,close}", "Next::write"], "bounded",
+  "any <= 4 operations return the reference queue's bytes in order", bound="cap <= 4, ws <= 2, 4 operations", min_covers=2, timeout=1200, tier="thorough")
+
+# ============================================================================ C18 (rest)
+K("c18_transition_table", "C18", "query_state", "query::state", ["QueryState::transition"], "complete",
+  "Ok exactly for Empty->Preparing, Empty->AwaitingInputs, Preparing->AwaitingInputs; AlreadyRunning / InvalidState otherwise; no panic", min_covers=3, timeout=900)
+K("c18_status_of_state", "C18", "query_state", "query::state", ["QueryStatus::from(&QueryState)"], "complete", "names the state it is given")
+
+# ============================================================================ C06
+PROPS["C06"] = dict(
+    level="proof",
+    decided=["PrssIndex128 packing: distinct (index, offset) => distinct block-cipher input; offsets > 2^11 rejected",
+             "index / record-id arithmetic never wraps silently (checked add, exact conversions)",
+             "MAC batch record ids (offset,k) -> total*offset + k are exact and pairwise distinct"],
+    undecided=["pairwise equality of left/right values (X25519 + HKDF + AES in external crates)", "'unrelated' (cryptographic assumption)",
+               "whole-execution no-reuse, UsedSet (mutex + HashSet + format!)", "cross-shard seed distribution (async)",
+               "DZKP PRSS_RECORDS_PER_BATCH ranges (fn-local const of an async fn: cannot be named from a harness)"],
+    trusted_base=[], assumptions=[],
+    explanation="scoped to index arithmetic",
+)
+_P = "protocol::prss"
+K("c06_prss_index128_injective", "C06", "prss", _P, ["PrssIndex128::new", "From<PrssIndex128> for u128/u64", "TryFrom<u128>"], "complete", "injective + inverse", min_covers=3)
+K("c06_prss_index128_try_from", "C06", "prss", _P, ["TryFrom<u128> for PrssIndex128"], "complete", "Ok iff representable", min_covers=2)
+K("c06_prss_index_add_no_wrap", "C06", "prss", _P, ["AddAssign<u32> for PrssIndex", "From<u128> for PrssIndex"], "complete", "exact when in range (panics otherwise)")
+K("c06_prss_offset_chunks_distinct", "C06", "prss", _P, ["PrssIndex::offset"], "complete", "chunks k1 != k2 of one index give distinct cipher inputs")
+K("c06_mac_batch_record_ids", "C06", "validator", "protocol::context::validator", ["Malicious::{u_record,w_record,r_share_record,reveal_check_zero_record}"], "complete",
+  "exact and pairwise distinct for totals 3 and 2", min_covers=2)
+K("c06_record_id_arith", "C06", "protocol_mod", "protocol", ["RecordId: From<usize>, Add<usize>, AddAssign<usize>", "From<RecordId> for PrssIndex"], "complete", "exact conversions")
+
+# ============================================================================ C12
+PROPS["C12"] = dict(
+    level="proof",
+    decided=["NoiseParams::new accepts exactly the documented ranges (all non-NaN f64)",
+             "OPRFPaddingDp::new validation prefix accepts exactly the documented ranges and yields truncation point >= sensitivity",
+             "sample_shares: noise value -n..n maps to (value mod 2^width) on the non-excluded side and 0 on the other, widths 8/16/32 (so -1 is reachable at every width)"],
+    undecided=["the probability law, find_smallest_n / right_hand_side / pow_u32 (transcendental floats), the rejection sampler",
+               "dummy-record sharing and the three noise passes (interactive)", "NaN parameters"],
+    trusted_base=[], assumptions=["assumed contract of the sampler: 0 <= sample <= 2*shift", "assumed contract of find_smallest_n: big_delta <= n <= 1_000_000"],
+    explanation="scoped to the validation and integer clauses",
+)
+K("c12_noise_params_new", "C12", "dp", "protocol::dp", ["NoiseParams::new"], "complete", "is_ok <=> documented range", min_covers=2)
+K("c12_padding_dp_new_validation", "C12", "oprf_insecure", "protocol::ipa_prf::oprf_padding::insecure", ["OPRFPaddingDp::new"], "complete",
+  "is_ok <=> documented range (epsilon <= 1e300)", min_covers=2, assumes=["kani::stub(find_smallest_n) by its assumed contract"], replay="none")
+for w_, u_ in (("ba8", 10), ("ba16", 18), ("ba32", 34)):
+    K("c12_sample_shares_%s" % w_, "C12", "dp", "protocol::dp", ["ShiftedTruncatedDiscreteLaplace::new", "ShiftedTruncatedDiscreteLaplace::sample_shares"],
+      "complete-for-instance", "share = (sample - shift) mod 2^width on the non-excluded side, 0 on the other", min_covers=3, replay="none",
+      assumes=["kani::stub(sample) by its assumed contract 0 <= s <= 2*shift", "kani::stub(OPRFPaddingDp::new): some shift <= 1_000_000"], timeout=900)
+
+# ============================================================================ C13
+PROPS["C13"] = dict(
+    level="proof",
+    decided=["capacity / read-size alignment rule of SendChannelConfig::new_with for every power-of-two active, record size and configured read size (Verus): "
+             "total_capacity = active*record_size, record_size | read_size | total_capacity, 0 < read_size <= capacity, read_size = record_size when indeterminate; the function's own asserts cannot fire",
+             "non_zero_prev_power_of_two and NonZeroU32PowerOfTwo::try_from for all usize"],
+    undecided=["delivery to the matching receive, ordering, closure at the declared count, deadlock freedom itself (async, multi-task)"],
+    trusted_base=[], assumptions=[],
+    explanation="scoped to the arithmetic premise of 'no deadlock while <= window records are outstanding' (ipa#1300)",
+)
+V("c13_send_config", "C13", "send_config", ["SendChannelConfig::new_with"], "complete", "alignment rule, all inputs",
+  assumes=["external_body non_zero_prev_power_of_two used through its contract (engine K unit c13_prev_power_of_two)", "five declared substitutions (see weave report)"])
+K("c13_prev_power_of_two", "C13", "power_of_two", "utils::power_of_two", ["non_zero_prev_power_of_two"], "complete", "power of two, r <= max(1,t) < 2r", min_covers=3)
+K("c13_nonzero_pow2_try_from", "C13", "power_of_two", "utils::power_of_two", ["NonZeroU32PowerOfTwo::try_from", "get", "to_non_zero_usize"], "complete",
+  "accepts exactly powers of two in 1..u32::MAX", min_covers=2)
+for rec in (1, 2, 3, 4, 8, 12, 16, 24, 32, 96, 4097):
+    K("c13_send_config_grid_rec%d" % rec, "C13", "send", "helpers::gateway::send", ["SendChannelConfig::new_with (unsubstituted)"], "bounded",
+      "same rule on the unsubstituted function", bound="active = 2^k, k <= 16; record_size = %d; read_size_cfg <= 2^20" % rec,
+      tier=("quick" if rec in (1, 3, 16) else "thorough"), timeout=900)
+
+# ============================================================================ C11
+PROPS["C11"] = dict(
+    level="proof",
+    decided=["UniqueTag::shard_picker: for all 2^128 tags and shard counts 1..=8: result < n, equals tag mod n, deterministic (copies of a report route to the same valid shard)",
+             "from_unique_bytes is a byte copy"],
+    undecided=["reshard_aad (async exchange)", "UniqueTagValidator::check_duplicates over the real HashSet", "'before attribution starts' ordering", "shard counts > 8 (symbolic divisor does not finish)"],
+    trusted_base=[], assumptions=[],
+    explanation="scoped to routing",
+)
+K("c11_shard_picker", "C11", "report_hybrid", "report::hybrid", ["UniqueTag::shard_picker"], "complete-for-instance", "valid, = tag mod n, deterministic; n in 1..=8", timeout=900)
+K("c11_unique_tag_copy", "C11", "report_hybrid", "report::hybrid", ["UniqueTag::from_unique_bytes", "<UniqueTag as UniqueBytes>::unique_bytes"], "complete", "byte copy")
+
+# ============================================================================ C10
+PROPS["C10"] = dict(
+    level="other",
+    decided=["BOUNDED totality: report and info parsers return (never panic) on every byte string of the stated lengths, incl. empty and truncated records",
+             "event type byte accepted iff 0/1"],
+    undecided=["AEAD integrity (any bit flip fails decryption): property of the external hpke / aes-gcm crates", "decrypt (GenericArray::from_slice aborts CBMC)",
+               "LengthDelimitedStream framing", "lengths other than the stated boundary lengths"],
+    trusted_base=[], assumptions=[],
+    explanation="bounded stand-in for the totality clause: Kani's implicit panic/bounds/unwrap obligations on the real parsers at the decision-boundary lengths; "
+                "not a proof for all lengths; the authenticity clause is undecided",
+)
+K("c10_event_type_try_from", "C10", "report_hybrid", "report::hybrid", ["HybridEventType::try_from"], "complete", "Ok iff byte in {0,1}", min_covers=2)
+K("c10_report_from_bytes_short", "C10", "report_hybrid", "report::hybrid", ["EncryptedHybridReport::from_bytes"], "bounded", "returns Err, never panics", bound="len <= 3", min_covers=2, timeout=900)
+K("c10_report_from_bytes_boundary_imp", "C10", "report_hybrid", "report::hybrid", ["EncryptedHybridReport::from_bytes", "EncryptedHybridImpressionReport::from_bytes"], "bounded",
+  "INFO_OFFSET-1 bytes rejected with Length, INFO_OFFSET accepted", bound="the two boundary lengths", timeout=900)
+K("c10_report_from_bytes_boundary_conv", "C10", "report_hybrid", "report::hybrid", ["EncryptedHybridReport::from_bytes", "EncryptedHybridConversionReport::from_bytes"], "bounded",
+  "same for the conversion variant", bound="the two boundary lengths", timeout=900)
+K("c10_impression_info_total", "C10", "report_hybrid_info", "report::hybrid_info", ["HybridImpressionInfo::from_bytes"], "complete", "total on len 0..=2; Err iff empty", min_covers=2)
+for n in (0, 1, 2, 25, 26, 27, 28):
+    K("c10_conversion_info_total_len%d" % n, "C10", "report_hybrid_info", "report::hybrid_info", ["HybridConversionInfo::from_bytes"], "bounded",
+      "returns (never panics); Ok only for NUL-delimited records with a 25-byte tail", bound="len = %d, contents symbolic" % n, timeout=1200,
+      tier=("quick" if n in (0, 1, 26) else "thorough"))
+
+# ============================================================================ C15
+PROPS["C15"] = dict(
+    level="other",
+    decided=["BOUNDED (n <= 3 futures, window <= 2): results in input order, each exactly once; end only after all; window kept full while input remains; every in-flight future polled on each call; completed futures never polled again"],
+    undecided=["larger windows / longer inputs", "seq_try_join_all early stop", "multi-threaded variant (unsafe, async-scoped)", "validated_seq_join", "parallel_join (futures crate)"],
+    trusted_base=[], assumptions=["kani::stub(periodic_memory_report) = no-op (reaches tracing => kani-compiler ICE)"],
+    explanation="bounded symbolic exploration of every completion order of the real SequentialFutures::poll_next within the stated bounds; not a proof for all n, w",
+)
+for n_, w_, t_ in ((1, 1, "quick"), (2, 1, "quick"), (2, 2, "quick"), (3, 2, "thorough")):
+    K("c15_seq_join_n%d_w%d" % (n_, w_), "C15", "seq_join", "seq_join::local", ["SequentialFutures::poll_next", "SequentialFutures::new", "ActiveItem::{check_ready,take}"], "bounded",
+      "in-order, exactly-once, window full, all polled", bound="n = %d, w = %d, polls <= %d" % (n_, w_, n_ + 2), min_covers=2, timeout=1800, tier=t_, replay="none")
+
+# ============================================================================ C17
+PROPS["C17"] = dict(
+    level="other",
+    decided=["BOUNDED (N = 2, len <= 5; N = 3, len <= 7): process_slice_by_chunks yields exactly ceil(len/N) chunks, chunk i = slice[N*i..], tail zero-padded and typed Partial(len % N), then None forever; no panic",
+             "BOUNDED Chunk::unpack (N = 4, M = 2)"],
+    undecided=["BufDeque::read_bytes / extend (VecDeque<Bytes>: solver does not finish)", "LengthDelimitedStream / RecordsStream poll_next", "BufferedBytesStream", "Length decode (GenericArray)"],
+    trusted_base=[], assumptions=[],
+    explanation="bounded stand-in, scoped to the fixed-width chunker",
+)
+K("c17_slice_chunks_n2", "C17", "chunks", "helpers::stream::chunks", ["process_slice_by_chunks", "SliceChunkProcessor::next_chunk", "ChunkFuture::poll"], "bounded",
+  "chunking contract", bound="N = 2, len <= 5", min_covers=3, timeout=1200)
+K("c17_slice_chunks_n3", "C17", "chunks", "helpers::stream::chunks", ["process_slice_by_chunks", "SliceChunkProcessor::next_chunk"], "bounded",
+  "chunking contract", bound="N = 3, len <= 7", min_covers=3, timeout=1800, tier="thorough")
+K("c17_chunk_unpack", "C17", "chunks", "helpers::stream::chunks", ["Chunk::unpack"], "bounded", "valid lengths sum, order kept, no panic on well-formed input", bound="N = 4, M = 2", min_covers=3, timeout=900)
+
+# ============================================================================ C01
+PROPS["C01"] = dict(
+    level="other",
+    decided=["pairing clause only: MatchEntry::{add_report,into_pair}: after k >= 1 reports into_pair() is Some([first, second]) iff k = 2",
+             "BOUNDED (<= 3 reports, 2 keys): group_report_pairs_ordered over the real BTreeMap returns one pair per key occurring exactly twice"],
+    undecided=["everything else in the pipeline: shuffle, PRF, reshard, aggregation circuits, noise, finalize; the end-to-end equality with the clear-text reference is NOT established by this machinery"],
+    trusted_base=[], assumptions=[],
+    explanation="only the pairs-only grouping mechanism is under contract; the property's end-to-end statement is an interactive three-party protocol outside any function-level contract",
+)
+K("c01_match_entry", "C01", "agg", "protocol::hybrid::agg", ["MatchEntry::add_report", "MatchEntry::into_pair"], "complete", "Some([first, second]) iff exactly two reports", min_covers=2, timeout=900)
+K("c01_group_pairs_small", "C01", "agg", "protocol::hybrid::agg", ["group_report_pairs_ordered"], "bounded", "one pair per key occurring exactly twice, arrival order inside the pair",
+  bound="<= 3 reports, keys in {0,1}", min_covers=2, timeout=1800, tier="thorough")
